@@ -479,6 +479,10 @@ pub struct RelayScn {
     /// per hop (>= 2): an earlier hop is repeated afterwards on a fresh holder and must give what it gave
     #[serde(default)]
     pub repeat_earlier: Vec<Option<usize>>,
+    /// per hop: the relay holder object first gets a request that is rejected at the key-binding
+    /// stage (nonce and aud but no key), for the previous (wider) selection
+    #[serde(default)]
+    pub rejected_first: Vec<bool>,
 }
 
 pub fn gen_c15(rng: &mut Rng, _tier: Tier) -> Result<Value, serde_json::Error> {
@@ -521,7 +525,8 @@ pub fn gen_c15(rng: &mut Rng, _tier: Tier) -> Result<Value, serde_json::Error> {
     let warmups: Vec<Option<Map<String, Value>>> = selections.iter().map(|d| if rng.chance(1, 3) { let pm = 300 + rng.below(500); Some(gen::narrow_selection(rng, d, pm)) } else { None }).collect();
     let other_traffic: Vec<bool> = selections.iter().map(|_| rng.chance(1, 3)).collect();
     let repeat_earlier: Vec<Option<usize>> = (0..selections.len()).map(|j| if j >= 1 && rng.chance(1, 2) { Some(rng.usize(j)) } else { None }).collect();
-    serde_json::to_value(RelayScn { kind: "relay".into(), check: "C15".into(), entropy_seed: rng.next_u64(), clock_base: now, key, alg, cred, selections, fmts, warmups, other_traffic, repeat_earlier })
+    let rejected_first: Vec<bool> = selections.iter().map(|_| rng.chance(1, 4)).collect();
+    serde_json::to_value(RelayScn { kind: "relay".into(), check: "C15".into(), entropy_seed: rng.next_u64(), clock_base: now, key, alg, cred, selections, fmts, warmups, other_traffic, repeat_earlier, rejected_first })
 }
 
 pub fn execute_c15(scn_v: &Value) -> RunReport {
@@ -581,6 +586,16 @@ pub fn execute_c15(scn_v: &Value) -> RunReport {
         }
         let relay = match w.holder_new(n_hr, &input, fmt_j) {
             Out::Ok(h) => {
+                // a request that is rejected (nonce and aud given, key missing; or an algorithm that
+                // does not exist), for the wider selection of the previous hop
+                if scn.rejected_first.get(j).copied().unwrap_or(false) {
+                    let wider = if j >= 1 { scn.selections[j - 1].clone() } else { gen::select_all(&c.claims) };
+                    let (key, alg) = if j % 2 == 0 { (None, None) } else { (Some("ecC".to_string()), Some("ES999".to_string())) };
+                    let r = w.present_raw(n_hr, &h, &wider, Some("n".into()), Some("a".into()), key, alg);
+                    if !r.is_ok() {
+                        cx.rep.count("fault.rejected_request_on_relay_holder");
+                    }
+                }
                 // the same holder object may serve another (narrower) request first
                 if let Some(Some(wsel)) = scn.warmups.get(j) {
                     let _ = w.present(n_hr, &h, wsel, None);
@@ -688,6 +703,7 @@ pub fn execute_c15(scn_v: &Value) -> RunReport {
                 red.warmups.truncate(j + 1);
                 red.other_traffic.truncate(j + 1);
                 red.repeat_earlier.truncate(j + 1);
+                red.rejected_first.truncate(j + 1);
                 let mut trigger = BTreeMap::new();
                 trigger.insert("hop".to_string(), json!(j));
                 trigger.insert("format".to_string(), json!(fmt_j.name()));
